@@ -8,6 +8,10 @@ from harness.common import rat, unrat, corpus_cases
 PID = 'C01'
 MODULES = ['NoteSeqVerif.Props.C01', 'NoteSeqVerif.Props.C01_float']
 EXE = 'drv_c01'
+# translator tie T2 (gen/translit2.py): the definitions obtained by symbolic execution of the CURRENT source of
+# quantize_to_step / steps_per_quarter_to_steps_per_second are provably the model functions the theorems are about
+BRIDGE = 'NoteSeqVerif.Props.C01_bridge'
+BRIDGE_THEOREMS = ['NSV.C01.t2_quantize_to_step', 'NSV.C01.t2_steps_per_quarter_to_steps_per_second', 'NSV.C01.t2_quantize_to_step_default_cutoff']
 _P = 'NoteSeqVerif.Props.C01'
 _F = 'NoteSeqVerif.Props.C01_float'
 THEOREMS = [(_P, t) for t in [
@@ -34,6 +38,13 @@ def generate(chk):
            + 'def DEFAULT_QPM : Rat := %s\n' % ('(%s : Rat)' % F(constants.DEFAULT_QUARTERS_PER_MINUTE))
            + 'end NSV.C01.Gen\n')
     chk.regenerate('NoteSeqVerif/Generated/C01.lean', txt)
+    from harness.t2 import generate_t2
+    generate_t2(chk, 'C01', [
+        dict(fn=sl.quantize_to_step, module=sl, name='quantize_to_step',
+             params={'unquantized_seconds': 'float', 'steps_per_second': 'float', 'quantize_cutoff': 'float'}),
+        dict(fn=sl.steps_per_quarter_to_steps_per_second, module=sl, name='steps_per_quarter_to_steps_per_second',
+             params={'steps_per_quarter': 'int', 'qpm': 'float'}),
+    ])
 
 
 # ----------------------------------------------------------------------------- generators
@@ -484,6 +495,7 @@ def run(chk):
     chk.prove(MODULES, THEOREMS, [EXE], extra_trusted=[
         'rne53 as a model of IEEE-754 binary64 arithmetic (validated bit-exactly by every request of this run)',
         'protobuf deepcopy semantics; CPython sorted() stability'])
+    chk.prove_bridge([BRIDGE], [(BRIDGE, t) for t in BRIDGE_THEOREMS])
     chk.rule = ('generated unquantized sequences (0-40 notes, control changes, annotations, 0-3 tempos/time signatures in '
                 'random storage order) with times from: arbitrary doubles, on-grid k/sps, half-step boundaries (k+1/2)/sps '
                 'moved by -3..+3 ulps (step numbers up to 1e7, also as decimal literals), near-zero and negative times (the -1/2, '
